@@ -50,6 +50,24 @@ type c15Hist struct {
 func (h *c15Hist) viol(key, what string, extra map[string]any) {
 	w := map[string]any{"history": h.idx, "ops": append([]string(nil), h.log...)}
 	for k, v := range extra {
+		switch x := v.(type) { // page-budget sized JSON data does not belong into a witness
+		case mdkSaveOp:
+			if len(x.Data) > 4096 {
+				x.Data = fmt.Sprintf("<%d bytes of JSON>", len(x.Data))
+			}
+			v = x
+		case tlmetadata.Event:
+			if len(x.Data) > 4096 {
+				x.Data = fmt.Sprintf("<%d bytes of JSON>", len(x.Data))
+			}
+			v = x
+		case *mdkEnt:
+			if x != nil && len(x.Data) > 4096 {
+				c := *x
+				c.Data = fmt.Sprintf("<%d bytes of JSON>", len(x.Data))
+				v = &c
+			}
+		}
 		w[k] = v
 	}
 	h.r.Violation("C15/"+key, what, w)
@@ -178,6 +196,14 @@ func (h *c15Hist) journal(since int64, page int64) {
 			return
 		}
 		if len(evs) == 0 {
+			// progress: an empty page is the end of the journal only if nothing newer exists
+			for _, id := range h.m.sortedIDs() {
+				if e := h.m.ents[id]; e.Ver > from {
+					h.viol("journal/no-progress", fmt.Sprintf("journal page requested from version %d (limit %d) is empty although entity %d has version %d (%d bytes of data): a paging reader never gets past this point", from, page, e.ID, e.Ver, len(e.Data)), map[string]any{"since": since, "page": page, "stuck_at": from})
+					h.w.Case(true, fmt.Sprintf("VIOL|journal-no-progress|big%v", len(e.Data) > 4096))
+					return
+				}
+			}
 			break
 		}
 		if int64(len(evs)) > page {
@@ -282,6 +308,26 @@ func (h *c15Hist) readBack(n int) {
 	}
 }
 
+// c15BigSizes: data sizes below, just above and far above the journal page budget.
+func c15BigSizes() []int {
+	limit := int(metricBytesReadLimit)
+	return []int{limit * 9 / 10, limit - 20 + 1, limit * 3 / 2}
+}
+
+// c15BigRequest: a valid request (create of a fresh dashboard, or an edit of an existing entity
+// that keeps its name) whose JSON data has exactly the given size.
+func c15BigRequest(m *mdkModel, rnd *rand.Rand, size, seq int) mdkSaveOp {
+	head := fmt.Sprintf(`{"op":%d,"pad":"`, seq)
+	data := head + strings.Repeat("d", size-len(head)-2) + `"}`
+	op := mdkSaveOp{Class: "create-big-data", Create: true, Typ: format.DashboardEvent, Name: fmt.Sprintf("big-%d-%d", seq, size), Data: data, Meta: `{"who":"big"}`}
+	if ids := m.sortedIDs(); len(ids) > 0 && rnd.IntN(3) == 0 {
+		if e := m.ents[ids[rnd.IntN(len(ids))]]; e.ID > 0 {
+			op = mdkSaveOp{Class: "edit-big-data", ID: e.ID, Ver: e.Ver, Typ: e.Typ, Name: e.Name, Del: e.Del, Data: data, Meta: `{"who":"big"}`}
+		}
+	}
+	return op
+}
+
 func c15RunHistory(r *verifkit.Run, w *verifkit.Worker, idx, nOps int) {
 	rnd := r.Rand(fmt.Sprintf("hist/%d", idx))
 	h := &c15Hist{r: r, w: w, idx: idx, rnd: rnd, clk: &mdkClock{}, m: mdkNewModel()}
@@ -309,9 +355,27 @@ func c15RunHistory(r *verifkit.Run, w *verifkit.Worker, idx, nOps int) {
 	for i := 0; i < 5+rnd.IntN(5); i++ {
 		g.names = append(g.names, fmt.Sprintf("n%d", i))
 	}
+	// rarely (it is expensive): entities whose JSON data is around and above the journal's page
+	// budget (metricBytesReadLimit; every entry is charged len(data)+20 bytes)
+	bigAt := map[int]int{}
+	if idx%20 == 7 {
+		for _, size := range c15BigSizes() {
+			bigAt[2+rnd.IntN(nOps-2)] = size
+		}
+		w.Count("histories_with_page_budget_sized_entities", 1)
+	}
 	for op := 0; op < nOps; op++ {
 		h.clk.Add(int64(rnd.IntN(3)) * int64(rnd.IntN(500)))
-		h.save(g.next(h.clk.Unix(), true))
+		req := g.next(h.clk.Unix(), true)
+		if size, ok := bigAt[op]; ok {
+			req = c15BigRequest(h.m, rnd, size, op)
+			w.Count("request.page_budget_sized_data", 1)
+		}
+		h.save(req)
+		if _, ok := bigAt[op]; ok {
+			h.journal(0, int64(1+rnd.IntN(4)))
+			h.journal(int64(rnd.IntN(int(h.m.maxVer)+1)), 1000)
+		}
 		switch k := rnd.IntN(40); {
 		case k == 0:
 			since := int64(0)
@@ -372,7 +436,7 @@ func TestVerifC15Hist(t *testing.T) {
 	r := verifkit.Start(t, "C15", "hist")
 	defer r.Finish()
 	mdkAssumeSQLite(r)
-	r.SetRule("sequential histories of create / edit / rename / delete / undelete requests for metrics, groups, dashboards, namespaces, prom-configs and predefined (negative-id) entities over a pool of 5–9 colliding names, namespace prefixes (existing / unknown), stale / future / foreign versions, unknown ids, hostile names; journal pages from random versions, GetEntityVersioned, GetHistoryShort, reopen. One case = one judged answer or read-back. Non-trivial = answer of a request (accepted, or refused after at least one accepted request) / journal with ≥2 entries after at least one edit / history with ≥2 versions; distinct = (request class, type, predicted outcome+reason, observed class) resp. shape of the read-back.")
+	r.SetRule("sequential histories of create / edit / rename / delete / undelete requests for metrics, groups, dashboards, namespaces, prom-configs and predefined (negative-id) entities over a pool of 5–9 colliding names, namespace prefixes (existing / unknown), stale / future / foreign versions, unknown ids, hostile names, and in 1 of 20 histories three entities whose JSON data is 0.9×, 1.0×+1 byte and 1.5× the journal page budget; journal pages from random versions, GetEntityVersioned, GetHistoryShort, reopen. One case = one judged answer or read-back. Non-trivial = answer of a request (accepted, or refused after at least one accepted request) / journal with ≥2 entries after at least one edit / history with ≥2 versions; distinct = (request class, type, predicted outcome+reason, observed class) resp. shape of the read-back.")
 	nHist := r.N(200, 2000)
 	nOps := r.N(60, 150)
 	workers := r.N(8, 16)
